@@ -263,6 +263,15 @@ def c_intersects_bounds(rng):
         if len(fc) >= 2:
             k = rng.randrange(len(fc) // 2)
             bx = (fc[2 * k], fc[2 * k + 1], bx[2] if bx[2] != fc[2 * k] else bx[2] + 1, bx[3] if bx[3] != fc[2 * k + 1] else bx[3] + 1)
+    elif rng.random() < 0.35 and len(cs.view):
+        # a box whose corners lie strictly between coordinates (halves next to a vertex): the box is a float box
+        # whatever the coordinate subtype of the array
+        fc = [c for el in cs.view if el is not None for c in oracle.flat_coords(kind, el) if math.isfinite(c)]
+        if len(fc) >= 2:
+            k = rng.randrange(len(fc) // 2)
+            vx, vy = fc[2 * k], fc[2 * k + 1]
+            sx, sy = rng.choice([(0.5, -1.0), (-2.5, -1.0), (-1.0, 0.5), (-1.0, -2.5), (0.25, 0.25)])
+            bx = (vx + sx, vy + sy, vx + sx + 2.0, vy + sy + 2.0)
     out = []
     exp = [oracle.intersects_bounds(kind, el, bx) for el in cs.view]
     got = cs.arr.intersects_bounds(bx)
@@ -588,13 +597,16 @@ def c_hilbert_reference(rng):
     p = rng.choice([1, 2, 3, 4, 6])
     # origin possibly fractional (the extent stays a power of two, so the scaling is exact): an explicit total_bounds is
     # a float box whatever the coordinate subtype of the array
-    x0, y0 = float(rng.randint(-8, 0)) + rng.choice([0.0, 0.0, 0.5, 0.25]), float(rng.randint(-8, 0)) + rng.choice([0.0, 0.0, 0.5])
+    fr_x, fr_y = rng.choice([0.0, 0.0, 0.5, 0.25]), rng.choice([0.0, 0.0, 0.5])
+    if cs.dtype.startswith('int') and rng.random() < 0.8:
+        fr_x, fr_y = rng.choice([0.5, 0.25, 0.75]), rng.choice([0.5, 0.0, 0.75])
+    x0, y0 = float(rng.randint(-8, 0)) + fr_x, float(rng.randint(-8, 0)) + fr_y
     w = rng.choice([0.0, 8.0, 16.0, 32.0])
     h = rng.choice([0.0, 8.0, 16.0, 32.0])
     tb = (x0, y0, x0 + w, y0 + h)
     variant = rng.choice(['tuple', 'list', 'array'])
     arg = {'tuple': tuple(tb), 'list': list(tb), 'array': np.array(tb)}[variant]
-    route = rng.choice(['array', 'array', 'series'])
+    route = rng.choice(['array', 'series'])
     recipe = dict(cs.recipe, total_bounds=list(tb), p=p, variant=variant, route=route)
     try:
         if route == 'series':
